@@ -25,6 +25,9 @@ pub struct Opts {
     /// `export`: eval_full_for_export and print what the serializer would see;
     /// `full`: eval_full and print every field (hidden ones included)
     pub mode: Mode,
+    /// with `Mode::Export`: print the text the real serializer produces for this format
+    /// (as a JSON string literal) instead of the canonical tree
+    pub text_format: Option<nickel_lang_core::serialize::ExportFormat>,
 }
 
 #[derive(Clone, Copy, Debug, PartialEq)]
@@ -44,6 +47,7 @@ impl Default for Opts {
             typecheck: true,
             keep_order: false,
             mode: Mode::Export,
+            text_format: None,
         }
     }
 }
@@ -262,6 +266,14 @@ fn run_inner(src: &str, o: &Opts) -> Outcome {
         Mode::Full => prog.eval_full(),
     };
     nickel_lang_core::verif_hooks::set_fuel(u64::MAX);
+    if let (Some(fmt), Ok(v)) = (o.text_format, &res) {
+        return match nickel_lang_core::serialize::validate(fmt, v)
+            .and_then(|_| nickel_lang_core::serialize::to_string(fmt, v))
+        {
+            Ok(text) => Outcome::Ok(json_str(&text)),
+            Err(e) => Outcome::Err { class: "Export".into(), detail: format!("at {:?}", e.path).chars().take(200).collect() },
+        };
+    }
     match res {
         Ok(v) => match show_value(&v, o.mode == Mode::Export, o.keep_order) {
             Ok(s) => Outcome::Ok(s),
